@@ -353,6 +353,8 @@ impl Oracle for IinOracle {
         let mut overflow = self.ledger.overflow;
         let mut snapshot: Option<Snapshot> = None;
         let mut newest_at_write: Option<Option<u64>> = None;
+        // the events that were live when the session took the lock to write the next fragment
+        let mut live_at_write: Option<BTreeSet<u64>> = None;
         let mut discarded_now: Vec<u64> = Vec::new();
         let mut bcast_processed = false;
 
@@ -388,6 +390,7 @@ impl Oracle for IinOracle {
                     if *site == "write_unsolicited" || *site == "write_response_headers" {
                         // what the next fragment carries was selected here: only events that exist now qualify
                         newest_at_write = Some(self.ledger.events.keys().next_back().copied());
+                        live_at_write = Some(live.clone());
                     }
                 }
                 Ev::Cb(_, cb) => match cb {
@@ -531,12 +534,19 @@ impl Oracle for IinOracle {
                     };
                     let meas = refapp::measurements(frag);
                     let events: Vec<&refapp::Meas> = meas.iter().filter(|m| m.is_event).collect();
-                    let own_ids = match match_events_before(
-                        &self.ledger,
-                        &events,
-                        &discarded_now,
-                        newest_at_write.take().flatten(),
-                    ) {
+                    let matched = match live_at_write.take() {
+                        Some(allowed) => {
+                            newest_at_write = None;
+                            crate::verif::models::ledger::match_events_among(&self.ledger, &events, &allowed)
+                        }
+                        None => match_events_before(
+                            &self.ledger,
+                            &events,
+                            &discarded_now,
+                            newest_at_write.take().flatten(),
+                        ),
+                    };
+                    let own_ids = match matched {
                         Ok(ids) => ids,
                         Err(_) => {
                             self.desync = true; // C03's business
